@@ -9,7 +9,7 @@
 (*   ev.big       = 1 iff some value did not fit TLC's integers            *)
 (* Booleans are 0/1.  Index arguments are (i, top): top = 1 means 2^64-i.  *)
 (***************************************************************************)
-EXTENDS SplineAlg
+EXTENDS Forms
 
 CONSTANT PROP      \* the property whose view of the events is judged ("ALL" = every conjunct)
 For(p) == PROP = "ALL" \/ PROP = p
@@ -213,10 +213,66 @@ EventOK_Spl(ev) ==
     [] ev.op = "SplLin" -> SplLinOK(ev)
     [] OTHER -> FALSE
 
+-----------------------------------------------------------------------------
+\* operator expressions and forms (C04, C05, C06, C07, C08, C09, C14)
+
+FsOf(ev) == [i \in DOMAIN ev.fs |-> SplOf(ev.fs[i])]
+
+RECURSIVE UsesSpl(_)
+UsesSpl(op) == CASE op.k = "Spl" -> TRUE
+                 [] op.k \in {"Id", "X", "Dx"} -> FALSE
+                 [] Bin(op) -> UsesSpl(op.l) \/ UsesSpl(op.r)
+                 [] OTHER -> UsesSpl(op.o)
+
+OpApplyOK(ev) ==
+  LET a == SplOf(ev.a)
+      fs == FsOf(ev)
+      e == ev.ast
+      native == \A i \in DOMAIN fs : fs[i].g = a.g
+  IN /\ For("C14") => SplOf(ev.a_after) = a
+     /\ For("C10") => (ev.app = "ok" => SplValid(SplOf(ev.app_v)))
+     /\ IF native \/ ~UsesSpl(e)
+        THEN /\ For("C04") \/ For("C05") \/ For("C08") => ev.app = "ok" /\ ApplyPost(e, a, fs, SplOf(ev.app_v))
+             /\ For("C07") \/ For("C08") => ev.lf = "ok" /\ ev.lf_v = LinearVal(e, a, fs)
+        ELSE For("C08") =>
+             IF SupHasIntervals(SplSup(a))
+             THEN ThrewCode(ev, "app", "DIFFERING_GRIDS") /\ ThrewCode(ev, "lf", "DIFFERING_GRIDS")
+             ELSE \* nothing to transform: an interval-free result / zero, or the refusal
+                  /\ (ThrewCode(ev, "app", "DIFFERING_GRIDS")
+                        \/ (ev.app = "ok" /\ ~SupHasIntervals(SplSup(SplOf(ev.app_v)))))
+                  /\ (ThrewCode(ev, "lf", "DIFFERING_GRIDS") \/ (ev.lf = "ok" /\ ev.lf_v = RZero))
+
+OpBFOK(ev) ==
+  LET a == SplOf(ev.a)
+      b == SplOf(ev.b)
+      fs == FsOf(ev)
+      native == \A i \in DOMAIN fs : fs[i].g = a.g
+      foreignUsed == ~native /\ (UsesSpl(ev.e1) \/ UsesSpl(ev.e2))
+  IN /\ For("C14") => SplOf(ev.a_after) = a /\ SplOf(ev.b_after) = b
+     /\ IF a.g # b.g
+        THEN For("C08") => ThrewCode(ev, "bf", "DIFFERING_GRIDS") /\ ThrewCode(ev, "sw", "DIFFERING_GRIDS")
+        ELSE IF ~foreignUsed
+        THEN /\ For("C06") \/ For("C08") =>
+                  /\ ev.bf = "ok" /\ ev.bf_v = BilinearVal(ev.e1, ev.e2, a, b, fs)
+                  /\ ev.sw = "ok" /\ ev.sw_v = ev.bf_v                 \* pairs swapped
+                  /\ (Common(a, b) = {} => ev.bf_v = RZero)
+             /\ For("C07") => ev.bf = "ok" /\ ev.lfp = "ok" /\ ev.lfp_v = ev.bf_v
+        ELSE For("C08") =>
+             IF Common(a, b) # {}
+             THEN ThrewCode(ev, "bf", "DIFFERING_GRIDS") /\ ThrewCode(ev, "sw", "DIFFERING_GRIDS")
+             ELSE \* no interval is transformed: zero or the refusal are both accepted
+                  ThrewCode(ev, "bf", "DIFFERING_GRIDS") \/ (ev.bf = "ok" /\ ev.bf_v = RZero)
+
+EventOK_Ops(ev) ==
+  CASE ev.op = "OpApply" -> OpApplyOK(ev)
+    [] ev.op = "OpBF" -> OpBFOK(ev)
+    [] OTHER -> FALSE
+
 SupOps == {"GridNew", "GridFind", "GridAt", "SupNew", "SupRead", "SupIdx", "SupBin", "SupTri"}
 SplOps == {"SplNew", "SplEval", "SplUn", "SplBin", "SplLin"}
 EventOK(ev) == /\ Sane(ev)
                /\ CASE ev.op \in SupOps -> EventOK_Sup(ev)
                     [] ev.op \in SplOps -> EventOK_Spl(ev)
+                    [] ev.op \in {"OpApply", "OpBF"} -> EventOK_Ops(ev)
                     [] OTHER -> FALSE
 =============================================================================
